@@ -62,6 +62,27 @@ func ExecEq(op M) (res any) {
 	if name == "flatRef" {
 		r = RefOf(op["r"])
 	}
+	if op["nilA"] == true && a != nil {
+		// the first list with nil in place of its empty slices: the same content
+		if len(a.Nodes) == 0 {
+			a.Nodes = nil
+		}
+		if len(a.Edges) == 0 {
+			a.Edges = nil
+		}
+		if len(a.RootElements) == 0 {
+			a.RootElements = nil
+		}
+	}
+	if op["intern"] == true {
+		// persons with the same content inside one node are one object (a caller who builds the
+		// contact tree from his address book), not separate objects with equal content
+		for _, nd := range []*sbom.Node{n, m} {
+			if nd != nil {
+				internPersons(nd)
+			}
+		}
+	}
 	var x, y *sbom.Node
 	if _, ok := op["x"]; ok && name == "equalRaw" {
 		x, y = NodeOf(op["x"]), NodeOf(op["y"])
@@ -124,6 +145,31 @@ func ExecEq(op M) (res any) {
 		return M{"eq": la.Equal(lb), "sum": true}
 	}
 	return "unknown-op"
+}
+
+// internPersons makes persons without contacts of their own that have the same content the same object
+func internPersons(n *sbom.Node) {
+	pool := map[string]*sbom.Person{}
+	var walk func(l []*sbom.Person)
+	walk = func(l []*sbom.Person) {
+		for i, p := range l {
+			if p == nil {
+				continue
+			}
+			if len(p.Contacts) == 0 {
+				k := js(PersonJ(p))
+				if q, ok := pool[k]; ok {
+					l[i] = q
+				} else {
+					pool[k] = p
+				}
+				continue
+			}
+			walk(p.Contacts)
+		}
+	}
+	walk(n.Suppliers)
+	walk(n.Originators)
 }
 
 // overwriteNode assigns every exported attribute of src to dst, leaving dst the same object
@@ -466,6 +512,26 @@ func eqGen(g *G, tier string) []M {
 				ops = append(ops, M{"op": "equalNode", "n": base, "m": other, "kind": "perturbed"})
 				break
 			}
+			if g.Chance(0.12) {
+				// two different instants far from today (never-expires dates, dates before 1677), or the
+				// half second before the epoch against the epoch
+				at, _ := base["a"].(M)
+				if at == nil {
+					at = M{}
+					base["a"] = at
+				}
+				fld := g.Pick([]string{"ReleaseDate", "BuildDate", "ValidUntilDate"})
+				pair := [][2][]any{{{253402214400.0, 0.0}, {32503593600.0, 0.0}}, {{10413792000.0, 0.0}, {13569465600.0, 0.0}},
+					{{-62135596800.0, 0.0}, {-11676096000.0, 0.0}}, {{-1.0, 500000000.0}, {0.0, 0.0}}}[g.Int(4)]
+				at[fld] = pair[0]
+				other := Normalize(base).(M)
+				other["a"].(M)[fld] = pair[1]
+				if g.Chance(0.5) {
+					base, other = other, base
+				}
+				ops = append(ops, M{"op": "equalNode", "n": base, "m": other, "kind": "perturbed"})
+				break
+			}
 			if g.Chance(0.15) {
 				// a date that is present against the same node without it, for the instants most easily
 				// mistaken for "no date": the epoch and 0001-01-01T00:00:00Z
@@ -495,7 +561,7 @@ func eqGen(g *G, tier string) []M {
 					base["a"] = at
 				}
 				fld := g.Pick([]string{"ReleaseDate", "BuildDate", "ValidUntilDate"})
-				secs := float64(g.Pick2([]int{0, 1, 1700000000, 1700086400}))
+				secs := float64(g.Pick2([]int{0, 1, 1700000000, 1700086400, 253402214400, -11676096000}))
 				at[fld] = []any{secs, float64(g.Pick2([]int{0, 1, 500, 500000000}))}
 				other := g.permuteNode(base)
 				other["a"].(M)[fld] = []any{secs, float64(g.Pick2([]int{0, 999, 70000, 999999999}))}
@@ -566,7 +632,19 @@ func eqGen(g *G, tier string) []M {
 					b["roots"] = append(asList(b["roots"]), "r")
 				}
 			}
+			if kind == "permuted" && g.Chance(0.4) && len(asList(a["nodes"])) >= 3 {
+				// several edges with the same source and type, different targets, stored in another order
+				ns := asList(a["nodes"])
+				id := func(i int) any { return ns[i%len(ns)].(M)["id"] }
+				extra := []any{M{"ty": 10.0, "src": id(0), "tos": []any{id(1)}}, M{"ty": 10.0, "src": id(0), "tos": []any{id(2)}}, M{"ty": 10.0, "src": id(0), "tos": []any{id(2), id(1)}}}
+				a["edges"] = append(asList(a["edges"]), extra...)
+				b = g.permuteNL(a)
+				b["edges"] = append(asList(Normalize(a["edges"]))[:len(asList(a["edges"]))-3], extra[2], extra[1], extra[0])
+			}
 			ops = append(ops, M{"op": "equalNL", "a": a, "b": b, "kind": kind})
+			if g.Chance(0.3) {
+				ops[len(ops)-1]["nilA"] = true
+			}
 		case 7:
 			ops = append(ops, M{"op": "flatPerson", "p": g.Person(2)})
 		case 8:
@@ -1129,6 +1207,22 @@ func diffGen(g *G, tier string) []M {
 				break
 			}
 			fld := g.Pick([]string{"Suppliers", "Originators"})
+			if g.Chance(0.3) {
+				// a contact of a contact that is also a direct contact (the same person object, see
+				// "intern"): the two nodes differ in which of the direct contacts it is
+				alice, dave := M{"n": "alice", "o": false, "e": "a@x"}, M{"n": "dave", "o": false, "e": "d@x"}
+				mk := func(inner M) any {
+					return []any{M{"n": "ACME", "o": true, "c": []any{alice, dave, M{"n": "bob", "o": false, "c": []any{inner}}}}}
+				}
+				at[fld] = mk(alice)
+				other = Normalize(base).(M)
+				other["a"].(M)[fld] = mk(dave)
+				if g.Chance(0.5) {
+					base, other = other, base
+				}
+				ops = append(ops, M{"op": "diff", "n": base, "m": other, "intern": true})
+				continue
+			}
 			if len(asList(at[fld])) == 0 {
 				at[fld] = []any{g.Person(2)}
 			}
